@@ -78,7 +78,11 @@ func (o *inputOpts) fromOptions(path string) {
 			os.Stderr.Write([]byte(err.Error()))
 			return
 		}
-		json.Unmarshal(content, &o.Balances)
+		err = json.Unmarshal(content, &o.Balances)
+		if err != nil {
+			os.Stderr.Write([]byte(err.Error()))
+			os.Exit(1)
+		}
 	}
 
 	if runMetaOpt != "" {
@@ -87,7 +91,11 @@ func (o *inputOpts) fromOptions(path string) {
 			os.Stderr.Write([]byte(err.Error()))
 			return
 		}
-		json.Unmarshal(content, &o.Meta)
+		err = json.Unmarshal(content, &o.Meta)
+		if err != nil {
+			os.Stderr.Write([]byte(err.Error()))
+			os.Exit(1)
+		}
 	}
 
 	if runVariablesOpt != "" {
@@ -96,7 +104,11 @@ func (o *inputOpts) fromOptions(path string) {
 			os.Stderr.Write([]byte(err.Error()))
 			return
 		}
-		json.Unmarshal(content, &o.Variables)
+		err = json.Unmarshal(content, &o.Variables)
+		if err != nil {
+			os.Stderr.Write([]byte(err.Error()))
+			os.Exit(1)
+		}
 	}
 }
 
